@@ -35,6 +35,7 @@ fn life_cfg(heartbeat: u16) -> LifeCfg {
         read_faults: false,
         heartbeat,
         explicit_drop_after_server_cancel: false,
+        empty_publish_before_server_cancel: false,
     }
 }
 
